@@ -22,7 +22,8 @@ def base_registry(classes=('Cell',)):
         return reg
     table = {'Cell': 'repo:cell.py:Cell', 'Excel': 'repo:excel.py:Excel', 'Context': 'repo:context.py:Context',
              'Executor': 'repo:utilities/executor.py:Executor', 'Parser': 'repo:utilities/parser.py:Parser',
-             'ExcelInPython': 'runtime:', 'EmptyCell': 'runtime:EmptyCell'}
+             'ExcelInPython': 'runtime:', 'EmptyCell': 'runtime:EmptyCell',
+             'CellTranslator': 'repo:translators/cell_translator.py:CellTranslator'}
     for c in classes:
         if c == 'ExcelInPython':
             from pv import source
